@@ -154,7 +154,7 @@ def decode_guarded(cls, data: bytes, measure_mem: bool = False):
 
 _HOSTILE_VARINTS = [b"\x00", b"\x01", b"\x02", b"\x7f", b"\x80\x01", b"\x81\x80\x80\x08", b"\x81\x80\x80\x80\x01", b"\xff\xff\xff\xff\x07", b"\xff\xff\xff\xff\x0f",
                     b"\xff\xff\xff\xff\x7f", b"\xff\xff\xff\xff\xff", b"\x80\x80\x80\x80\x00", b"\x80", b"\xff\x7f"]
-_HOSTILE_I16 = [be(-1, 2, True), be(-2, 2, True), be(32767, 2, True), be(-32768, 2, True), be(1, 2, True), be(0, 2, True)]
+_HOSTILE_I16 = [be(-1, 2, True), be(-2, 2, True), be(32767, 2, True), be(-32768, 2, True), be(1, 2, True), be(0, 2, True), be(-32767, 2, True), be(-25536, 2, True)]
 _HOSTILE_I32 = [be(-1, 4, True), be(-2, 4, True), be(2**31 - 1, 4, True), be(-(2**31), 4, True), be(1, 4, True), be(2**24, 4, True), be(2**28, 4, True)]
 _BYTES = [0x00, 0x01, 0x7F, 0x80, 0xFF, 0xFE, 0x02]
 
@@ -206,6 +206,10 @@ def apply_edits(data: bytes, om: OffsetMap, edits) -> bytes:
             if r in ("len", "tagcount", "tag", "tagsize") and width in (2, 4) and r == "len":
                 pool = _HOSTILE_I16 if width == 2 else _HOSTILE_I32
                 buf[s:e] = pool[sel2 % len(pool)]
+                if width == 2 and sel % 3 == 0:
+                    # ... followed by plenty of well-formed text, so that a reader which takes the hostile prefix for a large
+                    # (unsigned) length finds the bytes it asks for
+                    buf[e:e] = b"a" * 70000
             else:
                 buf[s:e] = _HOSTILE_VARINTS[sel2 % len(_HOSTILE_VARINTS)]
         elif kind == "insert":
